@@ -327,8 +327,45 @@ def r4_consistent_snapshot(repo=None):
     return r
 
 
+def r5_snapshot_spans_all_directories(repo=None):
+    """R4's argument ("a writer finishes files in time order, so once a file is seen all older ones are there") holds inside ONE
+    top-level directory and ONE writer session.  A reader over several top-level directories runs the probe-then-read step
+    once per directory, one after the other: it looks into B only after it has *read* A's files, so a recording that moves from A
+    to B while the call is in progress yields B's first file without A's last one - a set of files that never existed.  The
+    snapshot has to be taken over all directories before anything is read: in read / get_continuous_blocks no call that both
+    probes and opens files (the per-directory read step) may sit in the loop over the top-level directories."""
+    r = Rule("C09.R5", "one read call takes its snapshot of the finalized files over all top-level directories before it reads any")
+    m = pyfront.mod("digital_rf_hdf5", repo)
+    per_dir = m.flat(TL + "._read").fn()
+    probes_and_opens = any(isinstance(c, ast.Call) and pyfront.call_name(c) == "os.access" for c in ast.walk(per_dir)) and any(
+        isinstance(c, ast.Call) and pyfront.call_name(c) == "h5py.File" for c in ast.walk(per_dir))
+    n = 0
+    for q in ("DigitalRFReader.read", "DigitalRFReader.get_continuous_blocks"):
+        f = m.flat(q).fn()
+        for lp in ast.walk(f):
+            if not isinstance(lp, ast.For):
+                continue
+            calls = [c for c in ast.walk(lp) if isinstance(c, ast.Call) and isinstance(c.func, ast.Attribute) and c.func.attr == "_read"
+                     and isinstance(c.func.value, ast.Name) and isinstance(lp.target, ast.Name) and c.func.value.id == lp.target.id]
+            if not calls:
+                continue
+            n += 1
+            if probes_and_opens:
+                r.violation(m.rel, q, "for <entry> in <top-level directories>: <entry>._read(...) [probe + read per directory]",
+                            "the per-directory step probes for its files and reads them before the next top-level directory is looked at: "
+                            "with a recording that continues in a later-listed directory while the call is in progress the call returns "
+                            "that directory's first file without the previous directory's last one (blocks [[0, 19], [30, 39]] of a "
+                            "gap-free recording; read_vector raises 'Data gaps found')", line=lp.lineno)
+            else:
+                r.ok("%s:%s %s" % (m.rel, lp.lineno, q), "the per-directory step does not probe and open on its own")
+    if n < 2:
+        raise AnalysisError("loops over the top-level directories calling the per-directory read step not found in read / get_continuous_blocks (%d)" % n)
+    r.guard(2)
+    return r
+
+
 def rules(repo=None):
-    return [_rebrand(lambda: c02.r1_tmp_provenance(repo), "C09.P1"), _rebrand(lambda: c02.r2_publish_after_close(repo), "C09.P2"),
+    return [lambda: r5_snapshot_spans_all_directories(repo), _rebrand(lambda: c02.r1_tmp_provenance(repo), "C09.P1"), _rebrand(lambda: c02.r2_publish_after_close(repo), "C09.P2"),
             _rebrand(lambda: c02.r3_no_writer_of_final(repo), "C09.P3"), _rebrand(lambda: c02.r4_staged_creation(repo), "C09.P4"),
             _rebrand(lambda: c02.r5_readers_ignore_tmp(repo), "C09.P5"),
             _rebrand(lambda: c02.r6_identity_stable_until_published(repo), "C09.P6"),
